@@ -439,10 +439,11 @@ def is_agg_query(stages):
 
 # ------------------------------------------------------------------ evidence
 def write_evidence(pid, tier, seed, coverage, wall, violations, assumptions):
-    os.makedirs(os.path.join(VERIF, 'evidence'), exist_ok=True)
+    evdir = os.environ.get('AGV_EVIDENCE_DIR') or os.path.join(VERIF, 'evidence')   # the seed rehearsal points this at build/
+    os.makedirs(evdir, exist_ok=True)
     ev = {'property_id': pid, 'tier': tier, 'seed': seed, 'level': 'proof', 'coverage': coverage,
           'assumptions': assumptions, 'wall_s': round(wall, 2), 'violations': violations}
-    path = os.path.join(VERIF, 'evidence', pid + '.json')
+    path = os.path.join(evdir, pid + '.json')
     with open(path, 'w') as f:
         json.dump(ev, f, indent=1, sort_keys=True, default=str)
         f.write('\n')
